@@ -13,7 +13,8 @@ typedef union ResourceManager__SlotData SlotData;
 typedef struct Slot_ResourceManager__SlotData Slot;
 
 #define NULLSLOT ((unsigned)NULL_SLOT)
-#define MAXCAP 256u
+#include "config.h"
+#define MAXCAP (CFG_NULL_SLOT < 256 ? (unsigned)CFG_NULL_SLOT : 256u) /* SlotCount is as wide as a slot id */
 
 #ifndef VERIF_NATIVE
 /* MemoryPool::allocSlot: hands out slots_[usage_] and nothing else changes; full or unallocated pool -> null slot */
@@ -55,4 +56,72 @@ void h_pool_allocSlot(void) {
   CHECK((s.ptr_ == 0) == (s.id_ == NULLSLOT), "allocSlot: null slot iff NULL_SLOT id");
   CHECK(s.ptr_ == 0 || MemoryPool_ResourceManager__SlotData__getSlot(p, s.id_) == s.ptr_, "allocSlot: getSlot(id) is the slot");
   CHECK(p->capacity_ == before.capacity_ && p->slots_ == before.slots_, "allocSlot: pool block unchanged");
+}
+
+/* ---- MemoryPool::create / destroy / shrinkToFit / getSlot (contracts used as stubs by poollist_addpool / poollist_life) ---- */
+#define SLOTSZ sizeof(SlotData)
+void h_pool_create(void) {
+  Pool *p = malloc(sizeof *p);
+  __CPROVER_assume(p != 0);
+  unsigned cap = in_u32();
+  __CPROVER_assume(cap >= 1 && cap <= MAXCAP);
+  struct Allocator *a = verif_allocator(0);
+  g_expected_allocator = a;
+  g_alloc_calls = g_dealloc_calls = g_realloc_calls = 0; g_live_blocks = 0;
+  MemoryPool_ResourceManager__SlotData__create(p, (__typeof__(p->capacity_))cap, a);
+  COVER(p->slots_ != 0); COVER(p->slots_ == 0);
+  CHECK(g_alloc_calls == 1 && g_dealloc_calls == 0 && g_realloc_calls == 0, "C06: create asks the document's allocator for exactly one block");
+#ifdef CANARY_POOL_CREATE
+  CHECK(p->slots_ == 0 || p->capacity_ + (cap == 5) == cap, "create: capacity is the requested one");
+#else
+  CHECK(p->slots_ == 0 || p->capacity_ == cap, "create: capacity is the requested one");
+#endif
+  CHECK(p->slots_ != 0 || p->capacity_ == 0, "C05: a failed allocation leaves an EMPTY pool (capacity 0), never a pool without block");
+  CHECK(p->usage_ == 0, "create: the pool starts empty");
+  if (p->slots_) { p->slots_[cap - 1].variant.type_ = 0; } /* the block really has cap slots (bounds-checked write to the last one) */
+}
+void h_pool_destroy(void) {
+  Pool *p = mk_pool();
+  struct Allocator *a = verif_allocator(0);
+  g_expected_allocator = a;
+  g_alloc_calls = g_dealloc_calls = g_realloc_calls = 0;
+  _Bool had = p->slots_ != 0;
+  MemoryPool_ResourceManager__SlotData__destroy(p, a);
+  COVER(had); COVER(!had);
+#ifdef CANARY_POOL_DESTROY
+  CHECK(g_dealloc_calls == 1, "C06: destroy releases the block exactly once (and only if there is one)");
+#else
+  CHECK(g_dealloc_calls == (had ? 1u : 0u) && g_alloc_calls == 0 && g_realloc_calls == 0, "C06: destroy releases the block exactly once (and only if there is one)");
+#endif
+  CHECK(p->slots_ == 0 && p->capacity_ == 0 && p->usage_ == 0, "destroy leaves the empty pool (no dangling block pointer)");
+}
+void h_pool_shrink(void) {
+  Pool *p = mk_pool();
+  __CPROVER_assume(p->slots_ != 0);
+  ledger_add(p->slots_, (size_t)p->capacity_ * SLOTSZ);
+  struct Allocator *a = verif_allocator(0);
+  g_expected_allocator = a;
+  g_alloc_calls = g_dealloc_calls = g_realloc_calls = 0;
+  unsigned use = p->usage_, cap = p->capacity_;
+  MemoryPool_ResourceManager__SlotData__shrinkToFit(p, a);
+  COVER(use < cap && use > 0); COVER(use == 0);
+  CHECK(g_realloc_calls == 1 && g_alloc_calls == 0 && g_dealloc_calls == 0, "shrinkToFit only reallocates");
+#ifdef CANARY_POOL_SHRINK
+  CHECK(p->capacity_ == cap, "after shrinkToFit the capacity is the usage (or unchanged if the block could not move)");
+#else
+  CHECK(p->usage_ == use && (p->capacity_ == use || p->capacity_ == cap), "after shrinkToFit the capacity is the usage (or unchanged if the block could not move)");
+#endif
+  CHECK(p->usage_ <= p->capacity_ || p->slots_ == 0, "usage never exceeds capacity");
+}
+void h_pool_getSlot(void) {
+  Pool *p = mk_pool();
+  unsigned id = in_u32();
+  __CPROVER_assume(id < p->usage_);
+  SlotData *s = MemoryPool_ResourceManager__SlotData__getSlot(p, (__typeof__(p->usage_))id);
+  COVER(id > 0);
+#ifdef CANARY_POOL_GETSLOT
+  CHECK(s == p->slots_ + id + (id == 2), "getSlot(id) is slots_ + id");
+#else
+  CHECK(s == p->slots_ + id, "getSlot(id) is slots_ + id");
+#endif
 }
